@@ -76,6 +76,64 @@ def candidates(fmt, name):
     return out, ctrl
 
 
+_AUDIT = {'on': False, 'paths': []}
+
+
+def _audit(event, args):
+    if not _AUDIT['on']:
+        return
+    try:
+        if event == 'open':
+            path, mode, flags = args[0], args[1], args[2] if len(args) > 2 else 0
+            if isinstance(path, (str, bytes, os.PathLike)) and ((isinstance(mode, str) and any(c in mode for c in 'wax+'))
+                                                                 or (isinstance(flags, int) and flags & (os.O_WRONLY | os.O_RDWR | os.O_CREAT | os.O_TRUNC))):
+                _AUDIT['paths'].append(os.fspath(path))
+        elif event in ('os.remove', 'os.truncate', 'os.rmdir'):
+            _AUDIT['paths'].append(os.fspath(args[0]))
+        elif event in ('os.rename', 'shutil.move', 'shutil.copyfile'):
+            _AUDIT['paths'] += [os.fspath(args[0]), os.fspath(args[1])]
+    except Exception:
+        pass
+
+
+def discover(ctx, fd, fmt, msh_only, name, mkdirs):
+    """paths the writer touches (opens for writing, renames, removes) when writing into an EMPTY directory: side files
+    such as <target>.tmp / .bak / ~ become candidates for the pre-existing subsets of the enumeration"""
+    import sys
+    if not _AUDIT.get('installed'):
+        sys.addaudithook(_audit)
+        _AUDIT['installed'] = True
+    root = ctx.tmp / 'w'
+    if root.exists():
+        shutil.rmtree(root)
+    root.mkdir()
+    for d in (mkdirs or []):
+        (root / d).mkdir(parents=True)
+    cwd = os.getcwd()
+    os.chdir(root)
+    _AUDIT['paths'] = []
+    _AUDIT['on'] = True
+    try:
+        with contextlib.redirect_stdout(io.StringIO()):
+            fd.write(fmt, name, overwrite=False, **({'write_msh_only': True} if msh_only else {}))
+    except Exception:
+        pass
+    finally:
+        _AUDIT['on'] = False
+        os.chdir(cwd)
+    out = []
+    rootr = str(root.resolve())
+    for p in _AUDIT['paths']:
+        if isinstance(p, bytes):
+            p = p.decode()
+        ap = os.path.realpath(os.path.join(rootr, p))
+        if ap.startswith(rootr + os.sep):
+            rel = os.path.relpath(ap, rootr)
+            if rel not in out:
+                out.append(rel)
+    return out
+
+
 def snapshot(root):
     snap = {}
     for dp, dn, fn in os.walk(root):
@@ -143,6 +201,11 @@ def enumerate_cases(ctx):
     for fmt, msh_only in FORMATS:
         for sclass, name, mkdirs in spellings(fmt):
             cand, ctrl = candidates(fmt, name)
+            # tie T: side files the real writer touches in an empty directory join the candidates
+            for p in discover(ctx, ctx.extra['_fd'], fmt, msh_only, name, mkdirs if mkdirs is not None else []):
+                if p not in cand and len(cand) < 6:
+                    cand.append(p)
+                    ctx.count('discovered-side-file:' + p.replace(name, '<name>'))
             if mkdirs is None:
                 subsets = [()]
             else:
@@ -158,6 +221,7 @@ def run(ctx):
     stubbed = stubs.install()
     ctx.extra['stubbed_modules'] = stubbed
     fd = make_fem()
+    ctx.extra['_fd'] = fd
     cfgs = [(a, b) for a in (1, 0) for b in (0, 1)]
     mismatch = {c: [] for c in cfgs}
     results = []
@@ -212,6 +276,7 @@ def run(ctx):
                 ctx.disagree('outcome differs from Cfg.fixed' + (f' (tree behaves as Cfg {names[best]})' if agree else ''),
                              case, impl, model)
     ctx.extra['exhaustive'] = not ctx.quick
+    ctx.extra.pop('_fd', None)
 
 
 def replay(ctx, obj):
